@@ -264,10 +264,77 @@ func runC11(t *T) {
 	if t.C.Chance(1, 2) {
 		cur.knobs["cacheCopyBuf"] = uint64([]int{512, 64, 300, 1000}[t.C.Draw(4)])
 	}
-	if t.C.Chance(1, 2) {
+	switch t.C.Weighted(3, 3, 2) {
+	case 0:
 		c11Fault(t)
-	} else {
+	case 1:
 		c11Concurrent(t)
+	default:
+		c11FaultSequence(t)
+	}
+}
+
+// c11FaultSequence: several opens of one name in a row, each with its own (optional) fault on the source
+// or on the cache store (which, in its minimal form, cannot remove a partial file); whenever an open
+// succeeds it must deliver the complete bytes, and so must the fault-free opens at the end.
+func c11FaultSequence(t *T) {
+	c := t.C
+	w := newCacheWorld(t, []int{2000, 513, 1024, 1500, 4096})
+	var storeFS cacheStoreIface
+	if w.storeMin {
+		storeFS = newCapFS(w.store, []string{"OpenFile", "Mkdir"}).(cacheStoreIface)
+	} else {
+		storeFS = newCapFS(w.store, []string{"OpenFile", "Mkdir", "Remove"}).(cacheStoreIface)
+	}
+	cfs, err := cache.NewReadOnlyFS(newCapFS(w.src, nil), storeFS, cache.ReadOnlyOptions{})
+	must(t, err)
+	names := w.names()
+	name := names[c.Draw(len(names))]
+	want := w.files[name]
+	rounds := 2 + c.Draw(4)
+	t.Logf("mode=fault-sequence file=%s (%d bytes) minimal-store=%v rounds=%d", name, len(want), w.storeMin, rounds)
+	faults := 0
+	var history []string
+	for r := 0; r < rounds+2; r++ {
+		var target *capCore
+		if r < rounds {
+			switch c.Weighted(2, 3, 3) {
+			case 1:
+				target = w.src
+			case 2:
+				target = w.store
+			}
+		}
+		for _, core := range []*capCore{w.src, w.store} {
+			core.faultAt, core.fired, core.faultKind = -1, "", ""
+		}
+		if target != nil {
+			target.faultAt = len(target.calls) + c.Draw(10)
+		}
+		f, err := cfs.Open(name)
+		fired := ""
+		if target != nil {
+			fired = target.label + target.fired
+			if target.fired != "" {
+				faults++
+			}
+		}
+		if err != nil {
+			history = append(history, fmt.Sprintf("open%d(fault %q)=error", r, fired))
+			t.Logf("open %d (fault fired %q) -> error %v", r, fired, err)
+			continue
+		}
+		got, rerr := readAllFrom(f, 700)
+		f.Close()
+		history = append(history, fmt.Sprintf("open%d(fault %q)=%d bytes", r, fired, len(got)))
+		t.Logf("open %d (fault fired %q) -> %d bytes (%v)", r, fired, len(got), rerr)
+		if rerr == nil && !bytes.Equal(got, want) {
+			t.Fail("partial-served", "C11:fault-sequence:open-serves-incomplete", fmt.Sprintf("open %d of %q succeeded and delivered %d of %d bytes; history: %v", r, name, len(got), len(want), history))
+		}
+	}
+	if faults > 0 {
+		t.Stat("probe:fault-sequence-with-faults")
+		t.NonTrivial()
 	}
 }
 
